@@ -210,6 +210,40 @@ def table256(point='P'):
     return Agg(items)
 
 
+def check_precomp_256(fx, p):
+    """(interp, problem or None): on every path precomp_256 turns an arbitrary buffer into the subset-sum table; a path
+    taken only when the base is the identity may store any multiples of the base ([k]O = O)."""
+    import tt
+    P = Lin.atom('P')
+    I, res = run(fx, p, [('byref', P), ('byref', Agg([Lin.atom('stale%d' % i) for i in range(256)]))])
+    kz = ('is_zero', tt.lin_key(P))
+    t256 = table256()
+    n_general = 0
+    for pth, ret, outs in res:
+        if isinstance(ret, tuple) and ret and ret[0] == 'diverges':
+            return I, 'a path panics (%r)' % (ret[1],)
+        lits = tt.path_literals(pth)
+        other = [l for l in lits if l[0] != kz and not (isinstance(l[0], tuple) and l[0] and l[0][0] == 'infinity')]
+        ident = any((l[0] == kz or (isinstance(l[0], tuple) and l[0] and l[0][0] == 'infinity')) and l[1] for l in lits)
+        if other:
+            return I, 'branches on %r' % (other[0][2],)
+        out = outs.get(2)
+        if not (isinstance(out, Agg) and len(out.items) == 256):
+            return I, 'entry shape is %r (the table contract of the 256-entry methods is violated, e.g. a stale caller-provided value survives)' % (out,)
+        for i in range(256):
+            x = out.items[i]
+            if ident:
+                if not (isinstance(x, Lin) and x.atoms() <= {'P'}):
+                    return I, 'for the identity base entry %d is %r' % (i, x)
+            elif not (isinstance(x, Lin) and x == t256.items[i]):
+                return I, 'entry %d is %r (the table contract of the 256-entry methods is violated, e.g. a stale caller-provided value survives)' % (i, x)
+        if not ident:
+            n_general += 1
+    if not n_general:
+        return I, 'no path handles a non-identity base'
+    return I, None
+
+
 def rule_scalar_mul(fx, rep, groups):
     P = Lin.atom('P')
     want = expected()
@@ -268,21 +302,11 @@ def rule_scalar_mul(fx, rep, groups):
         if p and fx.body(p):
             rep.fn(p)
             try:
-                I, res = run(fx, p, [('byref', P), ('byref', Agg([Lin.atom('stale%d' % i) for i in range(256)]))])
+                I, why = check_precomp_256(fx, p)
                 rep.sites(I.call_sites)
-                out = res[0][2].get(2) if len(res) == 1 else None
-                t256 = table256()
-                bad = None
-                if isinstance(out, Agg) and len(out.items) == 256:
-                    for i in range(256):
-                        if not (isinstance(out.items[i], Lin) and out.items[i] == t256.items[i]):
-                            bad = (i, out.items[i])
-                            break
-                else:
-                    bad = ('shape', out)
                 n += 1
-                rep.check(bad is None, 'BITLIN', '%s:precomp_256' % g, 'for any initial buffer, pre[i] = sum_{b in i} 2^(32 b) P for all 256 entries',
-                          'entry %s is %r (the table contract of the 256-entry methods is violated, e.g. a stale caller-provided value survives)' % (bad[0] if bad else '', bad[1] if bad else ''), fx.fn(p)['span'], construct=p)
+                rep.check(why is None, 'BITLIN', '%s:precomp_256' % g, 'for any initial buffer, pre[i] = sum_{b in i} 2^(32 b) P for all 256 entries (on every path)',
+                          why or '', fx.fn(p)['span'], construct=p)
             except (exp.NotDerivable, exp.Budget) as e:
                 rep.fail('BITLIN', '%s:precomp_256' % g, 'not derivable: %s at %s' % (e, getattr(e, 'where', None)), fx.fn(p)['span'])
         # ---- mul_precomp_256 with the contract table
